@@ -5,6 +5,7 @@
 From Coq Require Import List String NArith ZArith Bool.
 Import ListNotations.
 From Solstat Require Import Res Dir DirSpec DirProof DirExample.
+From Solstat Require Effects EffectsProof.
 Local Open Scope string_scope.
 Local Open Scope list_scope.
 
@@ -76,3 +77,13 @@ Example ex_verdicts :
   toy 1%N "x1" = Ok [2; 3]%Z.
 Proof. vm_compute. repeat split. Qed.
 Print Assumptions ex_verdicts.
+
+(* ---- tie to the source.  In the model the per-file analysis is `analyze p c`, a function of the pattern and the content,
+   and analyze_dir keeps nothing between files or between calls.  For the real code this rests on two facts about /repo/src
+   that are re-established on every run from the regenerated inventory gen/Effects.v: there is no static, thread-local,
+   lazily initialised or interior-mutable state (nothing can be remembered from one analysis to the next, in this thread
+   or another), and the only reads are the ones model/Dir.v performs. *)
+Theorem nothing_is_kept_between_analyses :
+  Effects.shared_state = [] /\ Effects.effects_read = EffectsProof.expected_read.
+Proof. exact (conj EffectsProof.no_shared_state_lemma (proj1 (proj2 EffectsProof.effects_match_model_lemma))). Qed.
+Print Assumptions nothing_is_kept_between_analyses.
